@@ -411,6 +411,21 @@ func C04(c *ev.Ctx) {
 			emit(ds, o, []string{"a.go"}, false)
 		}
 	}
+	// (d) a function with a LOCAL variable named like a later function that calls it (no dependency in Go: the local
+	// shadows the function), the variable being assigned through a field / having its field's address taken
+	for _, lines := range [][]string{
+		{"var F2 S0", "F2.a = 1", "_ = F2.a"},
+		{"var F2 S0", "p := &F2.a", "*p = 2", "_ = F2.a"},
+		{"F2 := S0{a: 1}", "_ = F2.a"},
+	} {
+		ds := []c04Decl{{kind: "struct", name: "S0", recv: -1},
+			{kind: "func", name: "F1", recv: -1, refs: []c04Ref{{to: 0, kind: "literal"}}, shadow: lines},
+			{kind: "func", name: "F2", recv: -1, refs: []c04Ref{{to: 1, kind: "call"}}}}
+		for _, o := range perms(3) {
+			emit(ds, o, []string{"a.go"}, false)
+			emit(ds, o, []string{"z.go", "a.go"}, false)
+		}
+	}
 	// (b) a diamond written in every order and split over two files in both directions
 	{
 		ds := []c04Decl{{kind: "func", name: "Leaf", recv: -1},
